@@ -406,9 +406,75 @@ def config_sessions_stream(ctx, res):
                     res.violate("C07:config-session:file-modified", "the key file a configuration no longer names was modified", dict(case))
 
 
+def generate_outside_stream(ctx, res):
+    """`KeyFile.generate_key()` is public: called with no context open it writes 32 fresh bytes and leaves the object holding nothing —
+    no encryption works until a context is opened, and the next session reads the file as it is then (another valid key is used
+    verbatim, a malformed file is rejected, a removed file is created anew)"""
+    from cincoconfig.encryption import KeyFile
+    tmp = ctx.tmpdir()
+    k = [0]
+    for after in ("untouched", "other-valid", "malformed-5", "malformed-33", "removed"):
+        for twice in (False, True):
+            k[0] += 1
+            path = os.path.join(tmp, "gen%d.key" % k[0])
+            kf = KeyFile(path)
+            case = {"stream": "generate-outside", "then_the_file_is": after, "generated_twice": twice}
+            res.case(stable(case), kind="generate-outside:" + after)
+            try:
+                kf.generate_key()
+                if twice:
+                    first = open(path, "rb").read()
+                    kf.generate_key()
+                    if open(path, "rb").read() == first:
+                        res.violate("C07:generate:not-fresh", "generate_key() called again left the same key in the file", case)
+                made = open(path, "rb").read()
+            except Exception as e:  # noqa
+                res.violate("C07:generate:raised", "generate_key() outside a context raised %s" % type(e).__name__, dict(case, error=str(e)[:100]))
+                continue
+            if len(made) != 32:
+                res.violate("C07:generate:size", "generate_key() wrote %d bytes" % len(made), case)
+                continue
+            try:
+                kf.encrypt("x", method="xor")
+                res.violate("C07:key-retained", "encryption worked with no key context open (right after generate_key())", case)
+                continue
+            except Exception:  # noqa
+                pass
+            other = bytes(range(100, 132))
+            if after == "other-valid":
+                open(path, "wb").write(other)
+            elif after == "malformed-5":
+                open(path, "wb").write(b"12345")
+            elif after == "malformed-33":
+                open(path, "wb").write(b"x" * 33)
+            elif after == "removed":
+                os.remove(path)
+            try:
+                with kf as ctx_:
+                    secret = ctx_.encrypt("payload", method="xor")
+                opened = True
+            except Exception:  # noqa
+                opened = False
+            if after.startswith("malformed"):
+                if opened:
+                    res.violate("C07:malformed-used", "a malformed key file was accepted by the session after generate_key() (the generated key was kept)", case)
+                continue
+            if not opened:
+                res.violate("C07:session-failed", "the session after generate_key() failed although the key file is valid or absent", case)
+                continue
+            now = open(path, "rb").read()
+            want = other if after == "other-valid" else made if after == "untouched" else now
+            if (after != "removed" and now != want) or len(now) != 32:
+                res.violate("C07:file-modified", "the key file was modified by the session after generate_key()", case)
+                continue
+            if bytes(a ^ b for a, b in zip(secret.ciphertext, (now * 2))) != b"payload":
+                res.violate("C07:other-key-used", "the session after generate_key() did not use the key that is in the file (it used the key generated earlier)", case)
+
+
 def run(ctx, n_quick=400, n_thorough=20000):
     res = Result()
     guard(res, "C07", config_sessions_stream, ctx, res)
+    guard(res, "C07", generate_outside_stream, ctx, res)
     tmp = ctx.tmpdir()
     rng = ctx.rng
     batch, reqs = [], []
